@@ -262,6 +262,12 @@ func (f *Frame) selectorsOf(in ssa.Instruction) []string {
 		}
 	case *ssa.Return:
 		sels = append(sels, "return")
+		// return:nil — returns whose last result (the error) is the literal nil
+		if n := len(in.Results); n > 0 {
+			if k, ok := in.Results[n-1].(*ssa.Const); ok && k.IsNil() {
+				sels = append(sels, "return:nil")
+			}
+		}
 	}
 	return sels
 }
@@ -339,8 +345,15 @@ func (f *Frame) val(v ssa.Value) Term {
 	if t, ok := f.vals[v]; ok {
 		return t
 	}
-	if _, ok := f.locs[v]; ok {
+	if l, ok := f.locs[v]; ok {
 		// address of a field/element used as a first-class value
+		if l.root == rootField && len(l.path) == 0 {
+			// the address of a field of a heap object is a stable function of
+			// the object and the field (needed for locks embedded in structs)
+			t := c.fieldAddr(l.base, l.comp)
+			f.vals[v] = t
+			return t
+		}
 		t := c.fresh("addr", SInt)
 		c.assume(app(SBool, "<", intLit(0), t), false)
 		f.vals[v] = t
@@ -1177,7 +1190,7 @@ func (c *Ctx) valueInv(v Term, t types.Type, st *State) Term {
 			return c.typeRange(v, t)
 		}
 		if u.Info()&types.IsString != 0 {
-			return c.ile(c.intConst(0, c.I()), app(c.I(), "str_len", v))
+			return tAnd(c.ile(c.intConst(0, c.I()), app(c.I(), "str_len", v)), c.typeRange(app(c.I(), "str_len", v), types.Typ[types.Int]))
 		}
 	case *types.Pointer, *types.Map, *types.Chan:
 		return tAnd(app(SBool, "<=", intLit(0), v), app(SBool, "<=", v, st.alloc), c.notUnescaped(v))
